@@ -94,7 +94,7 @@ def r1_whole_blocks(ctx):
             if not p.normal:
                 continue
             ys = [e for e in p.events if e.kind == "yield"]
-            tag = ",".join("%s" % v for _c, v in p.conds) + ("/handler" if any(e.kind == "handler" for e in p.events) else "")
+            tag = Q.tags(p.conds) + ("/handler" if any(e.kind == "handler" for e in p.events) else "")
             if not ys:
                 ctx.add("R1", "%s|yields|%s" % (qn, tag), "VIOLATED", "a normal path yields no test set", fn=qn, line=p.line)
                 continue
